@@ -101,6 +101,13 @@ def tightness(root, samples):
                 conts = [c for c in w.at.get(pos[:-1], []) if isinstance(c, (list, dict))]
                 if not any(all(e is None for e in (c.values() if isinstance(c, dict) else c)) for c in conts):
                     out.append(("any_without_empty_container", _p(pos), f"{[ir.jkind(v) for v in ivals][:4]}"))
+                # ... and a container that could only be routed here (no other union member admits it) must not hold a non-null
+                # element: its element kind was observed, so Any would be a widening the statement does not list
+                flags = w.sole.get(pos[:-1], [])
+                for c, only in zip(w.at.get(pos[:-1], []), flags):
+                    if only and isinstance(c, (list, dict)) and any(e is not None for e in (c.values() if isinstance(c, dict) else c)):
+                        out.append(("any_although_elements_were_observed", _p(pos), f"{[ir.jkind(e) for e in (c.values() if isinstance(c, dict) else c)][:4]}"))
+                        break
             elif ik != "union" and not any(ir.witness(inner, v) for v in ivals):
                 out.append(("element_type_without_witness", _p(pos), ir.type_shape(t)))
         if k == "lit" and not t.overflowed:
